@@ -1,8 +1,178 @@
-import Magog.Model.Eval
-import Magog.Model.Time
+import Magog.Lemmas.FenCount
+import Magog.Lemmas.FenFaithful
+import Magog.Spec.FenRoundTrip
 
-/-! Property C08 — theorems (see DESIGN §5). -/
+/-! Property C08 — FEN loading is total (error, not crash) and sound.
+
+`Model.parseFen : Bytes → M (Except FenError Position)` models `NewPositionFromFen` (engine/fen.go) over
+arbitrary byte strings (`Bytes = List Nat`, also values > 255). The outer `M = Except Panic` layer is a Go
+run-time panic, the inner `Except FenError` the engine's orderly rejection.
+
+* `fen_total`: for every byte string the loader returns normally (accept or reject) — no panic.
+* `fen_sound`: an accepted position satisfies `FenSpec.FenInv` (board size, list caps, every listed square
+  holds a man of the right colour and class, exactly one king each and the king squares point at them,
+  no pawn on a back rank, off-board slots empty, castling flags consistent, en-passant square consistent,
+  ply in range without int16 wrap and of the right parity).
+* `fen_sound_lists`: the converse direction `FenSpec.FenLists` (lists complete and duplicate-free, only the
+  twelve piece codes on the board).
+* `fen_faithful`: the accepted position is the one the six input fields denote (`FenSpec.FenFaithful`).
+* `fen_counts`, `fen_rejects_unrepresentable`: what cannot be represented is not accepted (board counts).
+* concrete `example`s by kernel evaluation: acceptance of the start position, orderly rejections, and
+  round trips against the independent writer `Spec.toFen`. The GENERAL round-trip theorem against
+  `Spec.toFen` is not proved (see the note before the round-trip examples).
+
+The definitions `FenInv`, `FenLists`, `FenFaithful`, `expandRank`, `strBytes`, `countCodes`, `accepted`,
+`rejectedWith` are in `Magog/Spec/FenInv.lean`, `roundTrips` in `Magog/Spec/FenRoundTrip.lean`; the proofs in
+`Magog/Lemmas/Fen*.lean` (FenPlace → FenInvariant → Fen → FenCount / FenFaithful). -/
 
 namespace Magog.Props.C08
+open Magog Magog.Model Magog.FenSpec Magog.FenLemmas
+
+/-- The loader is total: on EVERY byte string it returns normally (accepts or rejects); it never panics
+    (no index out of range on the board, no overflow of the fixed-size piece / pawn lists). -/
+theorem fen_total : ∀ s : Bytes, ∃ r, parseFen s = .ok r := by
+  intro s
+  obtain ⟨r, hr, _⟩ := parseFen_spec s
+  exact ⟨r, hr⟩
+
+/-- Whatever the loader accepts satisfies the position invariant `FenInv`. -/
+theorem fen_sound {s : Bytes} {p : Position} (h : parseFen s = .ok (.ok p)) : FenInv p := by
+  obtain ⟨r, hr, hspec⟩ := parseFen_spec s
+  rw [h] at hr
+  simp only [Except.ok.injEq] at hr
+  exact (hspec p hr.symm).1
+
+/-- Converse direction: the piece lists of an accepted position are complete and duplicate-free and the
+    board holds nothing but the twelve piece codes. -/
+theorem fen_sound_lists {s : Bytes} {p : Position} (h : parseFen s = .ok (.ok p)) : FenLists p := by
+  obtain ⟨r, hr, hspec⟩ := parseFen_spec s
+  rw [h] at hr
+  simp only [Except.ok.injEq] at hr
+  exact (hspec p hr.symm).2.1
+
+/-- The accepted position is the one the input denotes (`FenSpec.FenFaithful`): six fields, eight rank
+    strings; the board holds on every one of the 64 squares exactly the code the placement field denotes
+    (`expandRank`); side to move, the four castling flags, the en-passant square and the ply are the ones
+    the other fields denote. Together with `fen_sound` (off-board slots empty) this determines the whole
+    accepted position from the input. -/
+theorem fen_faithful {s : Bytes} {p : Position} (h : parseFen s = .ok (.ok p)) : FenFaithful s p :=
+  faithful_of_spec s p h
+
+/-- In an accepted position the list lengths ARE the numbers of such men on the board. -/
+theorem fen_counts {s : Bytes} {p : Position} (h : parseFen s = .ok (.ok p)) :
+    p.whitePawns.length = countCodes p.board [Gen.WPawn] ∧
+    p.blackPawns.length = countCodes p.board [Gen.BPawn] ∧
+    p.whitePieces.length = countCodes p.board whitePieceCodes ∧
+    p.blackPieces.length = countCodes p.board blackPieceCodes ∧
+    p.whitePawns.length + p.whitePieces.length = countCodes p.board (Gen.WPawn :: whitePieceCodes) ∧
+    p.blackPawns.length + p.blackPieces.length = countCodes p.board (Gen.BPawn :: blackPieceCodes) :=
+  counts_of_inv (fen_sound h) (fen_sound_lists h)
+
+/-- What the engine cannot represent is not accepted: an accepted board has exactly one king of each
+    colour, at most `pawnCap` (8) pawns and at most `pieceCap` (15) non-king men of each colour — counted
+    on the board, not on the lists — and no pawn on rank 1 or 8. -/
+theorem fen_rejects_unrepresentable {s : Bytes} {p : Position} (h : parseFen s = .ok (.ok p)) :
+    countCodes p.board [Gen.WKing] = 1 ∧ countCodes p.board [Gen.BKing] = 1 ∧
+    countCodes p.board [Gen.WPawn] ≤ pawnCap ∧ countCodes p.board [Gen.BPawn] ≤ pawnCap ∧
+    countCodes p.board (Gen.WPawn :: whitePieceCodes) ≤ pieceCap ∧
+    countCodes p.board (Gen.BPawn :: blackPieceCodes) ≤ pieceCap ∧
+    ∀ i : Nat, (p.board[i]? = some Gen.WPawn ∨ p.board[i]? = some Gen.BPawn) →
+      rankOf i ≠ Gen.Rank1 ∧ rankOf i ≠ Gen.Rank8 := by
+  have hI := fen_sound h
+  obtain ⟨c1, c2, _, _, c5, c6⟩ := fen_counts h
+  refine ⟨?_, ?_, ?_, ?_, ?_, ?_, hI.noBackPawn⟩
+  · rw [← countKings_eq_countCodes]; exact hI.wKing1
+  · rw [← countKings_eq_countCodes]; exact hI.bKing1
+  · rw [← c1]; exact hI.wpLen
+  · rw [← c2]; exact hI.bpLen
+  · rw [← c5]; exact hI.wLen
+  · rw [← c6]; exact hI.bLen
+
+/-! ### Non-vacuity and concrete rejections (kernel evaluation of the model) -/
+
+/-- the standard start position is accepted -/
+example : ∃ p, parseFen (strBytes "rnbqkbnr/pppppppp/8/8/8/8/PPPPPPPP/RNBQKBNR w KQkq - 0 1") = .ok (.ok p) :=
+  accepted_iff.1 (by decide +kernel)
+
+/-- a position with an en-passant square (after 1. e4) is accepted -/
+example : ∃ p, parseFen (strBytes "rnbqkbnr/pppppppp/8/8/4P3/8/PPPP1PPP/RNBQKBNR b KQkq e3 0 1") = .ok (.ok p) :=
+  accepted_iff.1 (by decide +kernel)
+
+/-- the accepted start position: the hypotheses of `fen_sound` … `fen_rejects_unrepresentable` are satisfiable,
+    and their conclusions are not trivially about empty lists (8 pawns, 7 pieces per side) -/
+example : ∃ p, parseFen (strBytes "rnbqkbnr/pppppppp/8/8/8/8/PPPPPPPP/RNBQKBNR w KQkq - 0 1") = .ok (.ok p) ∧
+    FenInv p ∧ FenLists p ∧ countCodes p.board [Gen.WPawn] = 8 ∧ countCodes p.board blackPieceCodes = 7 := by
+  obtain ⟨p, hp⟩ : ∃ p, parseFen (strBytes "rnbqkbnr/pppppppp/8/8/8/8/PPPPPPPP/RNBQKBNR w KQkq - 0 1") = .ok (.ok p) :=
+    accepted_iff.1 (by decide +kernel)
+  refine ⟨p, hp, fen_sound hp, fen_sound_lists hp, ?_, ?_⟩
+  · have hl : (match parseFen (strBytes "rnbqkbnr/pppppppp/8/8/8/8/PPPPPPPP/RNBQKBNR w KQkq - 0 1") with
+        | .ok (.ok q) => q.whitePawns.length | _ => 0) = 8 := by decide +kernel
+    rw [hp] at hl
+    rw [← (fen_counts hp).1]; exact hl
+  · have hl : (match parseFen (strBytes "rnbqkbnr/pppppppp/8/8/8/8/PPPPPPPP/RNBQKBNR w KQkq - 0 1") with
+        | .ok (.ok q) => q.blackPieces.length | _ => 0) = 7 := by decide +kernel
+    rw [hp] at hl
+    rw [← (fen_counts hp).2.2.2.1]; exact hl
+
+/-- `fen_faithful` on the start position: its hypothesis is satisfiable -/
+example : ∃ p, FenFaithful (strBytes "rnbqkbnr/pppppppp/8/8/8/8/PPPPPPPP/RNBQKBNR w KQkq - 0 1") p :=
+  (accepted_iff.1 (by decide +kernel)).imp fun _ hp => fen_faithful hp
+
+/-! Round trip against the independent writer `Spec.toFen` (Magog/Spec/Fen.lean), through the abstraction
+    `abs` — by kernel evaluation on concrete positions only.
+
+    MISSING (stretch goal, not proved): the general theorem
+    `fen_roundtrip : WellFormed P → parseFen (strBytes (Spec.toFen P n)) = .ok (.ok p) ∧ abs p = P`
+    for all specification positions `P`. What IS proved in general is `fen_faithful`: the accepted
+    position is determined by the input through the simple denotation `expandRank`. -/
+
+example : roundTrips "rnbqkbnr/pppppppp/8/8/8/8/PPPPPPPP/RNBQKBNR w KQkq - 0 1" 1 = true := by decide +kernel
+example : roundTrips "r3k2r/p1ppqpb1/bn2pnp1/3PN3/1p2P3/2N2Q1p/PPPBBPPP/R3K2R w KQkq - 0 1" 1 = true := by
+  decide +kernel
+example : roundTrips "rnbqkbnr/ppp1pppp/8/8/3pP3/8/PPPP1PPP/RNBQKBNR b KQkq e3 0 3" 3 = true := by decide +kernel
+example : roundTrips "8/2p5/3p4/KP5r/1R3p1k/8/4P1P1/8 w - - 0 57" 57 = true := by decide +kernel
+
+/-- helper for the rejection examples: an orderly rejection is not an acceptance -/
+theorem not_accepted_of_rejectedWith {s : Bytes} {e : FenError} (h : rejectedWith (parseFen s) e = true) :
+    ∀ p, parseFen s ≠ .ok (.ok p) := by
+  intro p hp; rw [rejectedWith_iff.1 h] at hp; cases hp
+
+/-- bytes that are not ASCII (even not bytes at all) are rejected, not a crash -/
+example : parseFen [300, 47, 1000] = .ok (.error .nonAscii) := rejectedWith_iff.1 (by decide +kernel)
+
+/-- the empty string is rejected, not a crash -/
+example : parseFen [] = .ok (.error .fields) := rejectedWith_iff.1 (by decide +kernel)
+
+/-- no white king -/
+example : ∀ p, parseFen (strBytes "rnbqkbnr/pppppppp/8/8/8/8/PPPPPPPP/RNBQ1BNR w kq - 0 1") ≠ .ok (.ok p) :=
+  not_accepted_of_rejectedWith (e := .invalid "kings") (by decide +kernel)
+
+/-- two black kings -/
+example : ∀ p, parseFen (strBytes "rnbqkbnr/pppppppp/8/8/8/k7/PPPPPPPP/RNBQKBNR w KQkq - 0 1") ≠ .ok (.ok p) :=
+  not_accepted_of_rejectedWith (e := .invalid "kings") (by decide +kernel)
+
+/-- a pawn on a back rank -/
+example : ∀ p, parseFen (strBytes "rnbqkbnP/pppppppp/8/8/8/8/PPPPPPP1/RNBQKBNR w KQq - 0 1") ≠ .ok (.ok p) :=
+  not_accepted_of_rejectedWith (e := .invalid "pawn on back rank") (by decide +kernel)
+
+/-- nine white pawns -/
+example : ∀ p, parseFen (strBytes "rnbqkbnr/pppppppp/8/8/8/P7/PPPPPPPP/RNBQKBNR w KQkq - 0 1") ≠ .ok (.ok p) :=
+  not_accepted_of_rejectedWith (e := .invalid "too many pieces") (by decide +kernel)
+
+/-- sixteen non-king white men (8 pawns, 8 pieces) -/
+example : ∀ p, parseFen (strBytes "rnbqkbnr/pppppppp/8/8/8/Q7/PPPPPPPP/RNBQKBNR w KQkq - 0 1") ≠ .ok (.ok p) :=
+  not_accepted_of_rejectedWith (e := .invalid "too many pieces") (by decide +kernel)
+
+/-- a ninth file in a rank (the file counter is a Go byte) -/
+example : ∀ p, parseFen (strBytes "rnbqkbnrr/pppppppp/8/8/8/8/PPPPPPPP/RNBQKBNR w KQkq - 0 1") ≠ .ok (.ok p) :=
+  not_accepted_of_rejectedWith (e := .invalid "more than 8 files") (by decide +kernel)
+
+/-- en-passant square that does not match the position -/
+example : ∀ p, parseFen (strBytes "rnbqkbnr/pppppppp/8/8/8/8/PPPPPPPP/RNBQKBNR b KQkq e3 0 1") ≠ .ok (.ok p) :=
+  not_accepted_of_rejectedWith (e := .invalid "en passant") (by decide +kernel)
+
+/-- full-move counter beyond the int16-safe bound -/
+example : ∀ p, parseFen (strBytes "rnbqkbnr/pppppppp/8/8/8/8/PPPPPPPP/RNBQKBNR w KQkq - 0 10000") ≠ .ok (.ok p) :=
+  not_accepted_of_rejectedWith (e := .invalid "full move counter too large") (by decide +kernel)
 
 end Magog.Props.C08
